@@ -342,8 +342,8 @@ def check_triple(t, exp, rep, modes=("full", "eps"), want=("W1", "W2", "W3", "W4
         if side == "ser" or side in modes:
             rep.add("EXTRACT", "%s:%s" % (key, side), "cannot extract wire term of %s of `%s`: %s" % (side, key, msg), t.loc)
     ser = t.paths.get("ser")
-    if "W5" in want:
-        if t.ser_impl is not None and t.des_impl is None:
+    if "W5" in want or "W5-view" in want:
+        if t.ser_impl is not None and t.des_impl is None and "W5-view" in want:
             # write-only views: what they write must be what the readers of their SerType consume
             st = t.ser_impl.assoc_ty("SerType")
             rep.count("write_only_views")
@@ -354,7 +354,7 @@ def check_triple(t, exp, rep, modes=("full", "eps"), want=("W1", "W2", "W3", "W4
                     target = o
             if st is None or target is None:
                 rep.oblige(False)
-                rep.add("W5", key + ":sertype", "write-only type `%s` has SerType `%s`, which has no deserializer" % (key, ty_str(st) if st else None), t.loc)
+                rep.add("W5-view", key + ":sertype", "write-only type `%s` has SerType `%s`, which has no deserializer" % (key, ty_str(st) if st else None), t.loc)
             else:
                 for p in t.paths.get("ser", []) or []:
                     if p.outcome != "ok":
@@ -368,9 +368,9 @@ def check_triple(t, exp, rep, modes=("full", "eps"), want=("W1", "W2", "W3", "W4
                     ok = bool(cands) and all(wire.atoms_equal(canon_atoms(p.atoms), canon_atoms(q.atoms)) for q in cands)
                     rep.oblige(ok)
                     if not ok:
-                        rep.add("W5", "%s:%s" % (key, p.cond_show()), "write-only view `%s` writes [%s] but its SerType `%s`, as which it is read back, is written/read as [%s]"
+                        rep.add("W5-view", "%s:%s" % (key, p.cond_show()), "write-only view `%s` writes [%s] but its SerType `%s`, as which it is read back, is written/read as [%s]"
                                 % (key, p.show(), ty_str(st), " | ".join(q.show() for q in cands) or "nothing compatible"), t.loc)
-        if t.ser_impl is None and t.des_impl is not None:
+        if t.ser_impl is None and t.des_impl is not None and "W5" in want:
             rep.add("W5", key, "`%s` has a DeserializeInner impl but no SerializeInner impl" % key, t.loc)
     # path problems
     if "PROB" in want:
